@@ -662,6 +662,34 @@ def reaching_values(fn: ast.AST, name: str, at: ast.AST) -> Optional[List[Tuple[
         if v is None:
             return None
         out.append((v, path_conditions(fn, cfg.nodes[d].ast), cfg.nodes[d].ast))
+    # a definition that reaches the use by going *around* a branch in which the name is bound again unconditionally
+    # does so only when that branch is not taken: it carries the negated branch condition
+    if len(out) > 1:
+        par = au.parents(fn)
+        refined = []
+        for v, cds, st in out:
+            extra = []
+            for v2, cds2, st2 in out:
+                if st2 is st or not cds2:
+                    continue
+                t2, pol2 = cds2[-1]
+                # the If statement st2 sits in, at the top level of one of its branches
+                iff = par.get(st2)
+                if not (isinstance(iff, ast.If) and iff.test is t2):
+                    continue
+                inside = st
+                is_inside = False
+                while inside in par:
+                    inside = par[inside]
+                    if inside is iff:
+                        is_inside = True
+                        break
+                if is_inside:
+                    continue
+                if executes_before(fn, st, iff) and not any(t is t2 for t, _p in cds):
+                    extra.append((t2, not pol2))
+            refined.append((v, list(cds) + extra, st))
+        out = refined
     return out
 
 
